@@ -1,6 +1,7 @@
 package main
 
 import (
+	"reflect"
 	"bytes"
 	"encoding/gob"
 	"encoding/json"
@@ -28,6 +29,7 @@ type concLine struct {
 	Progs [][]string     `json:"progs"`
 	Segs  map[string]int `json:"segs"`
 	Sched []int          `json:"sched"`
+	Free  bool           `json:"free,omitempty"` // replay case of a free-run divergence: run the programs free again
 }
 
 func goid() int64 {
@@ -106,6 +108,19 @@ func concOp(name string, g int) string {
 		jr, e7 := mxj.NewMapJsonReader(hideByteReader{strings.NewReader(fmt.Sprintf(`{"p":[%d,{"q":"%d"}]} `, g, g))})
 		return fmt.Sprint(tagged.CanonGo(m), e1, tagged.CanonGo(map[string]interface{}(ms)), e2, tagged.CanonGo(mj), e3,
 			tagged.CanonGo(mr), e4, tagged.CanonGo(mw), string(raw), e5, tagged.CanonGo(map[string]interface{}(sr)), e6, tagged.CanonGo(jr), e7)
+	case "decDeep":
+		// (free runs only) a DEEP private document, 3000 levels: limits and counters of the decoder are per call, not per process
+		deep := []byte(strings.Repeat("<n>", 3000) + fmt.Sprint(g) + strings.Repeat("</n>", 3000))
+		md, e8 := mxj.NewMapXml(deep)
+		depth := 0
+		for cur := interface{}(map[string]interface{}(md)); ; depth++ {
+			mm, ok := cur.(map[string]interface{})
+			if !ok {
+				break
+			}
+			cur = mm["n"]
+		}
+		return fmt.Sprint(depth, e8)
 	case "encPriv":
 		m := mxj.Map{"p": map[string]interface{}{"-g": g, "q": []interface{}{g, "x", map[string]interface{}{"r": g}}, "#text": fmt.Sprint("t<", g)}}
 		x, e1 := m.Xml()
@@ -250,7 +265,11 @@ func freeRun(progs [][]string, a *Acc, reps int) {
 			defer wg.Done()
 			g := w%len(progs) + 1
 			for r := 0; r < reps; r++ {
-				for _, op := range progs[g-1] {
+				ops := progs[g-1]
+				if r < 3 {
+					ops = append(append([]string{}, ops...), "decDeep")
+				}
+				for _, op := range ops {
 					var got string
 					if p := guard(func() { got = concOp(op, g) }); p != "" {
 						got = "PANIC " + p
@@ -268,7 +287,7 @@ func freeRun(progs [][]string, a *Acc, reps int) {
 	wg.Wait()
 	close(errs)
 	for e := range errs {
-		a.Mis("conc:free:result-differs", e, nil)
+		a.Mis("conc:free:result-differs", e, concLine{F: "conc", Progs: progs, Free: true})
 	}
 }
 
@@ -299,6 +318,16 @@ func replayConc(line []byte, a *Acc) {
 			concSeq(op, g+1)
 		}
 	}
+	if l.Free {
+		// re-execution of a free-run divergence (not deterministic: several attempts)
+		for g := range l.Progs {
+			concSeq("decDeep", g+1)
+		}
+		for i := 0; i < 5 && a.MisCount == 0; i++ {
+			freeRun(l.Progs, a, 20)
+		}
+		return
+	}
 	before := tagged.CanonGo(concShared)
 	beforeSq := tagged.CanonGo(map[string]interface{}(concSharedSq))
 	res, desync := runGated(&l, a)
@@ -325,6 +354,9 @@ func replayConc(line []byte, a *Acc) {
 	}
 	concLines++
 	if concLines%50 == 1 {
+		for g := 0; g < 8; g++ {
+			concSeq("decDeep", g+1) // (sequential reference, computed before the goroutines start)
+		}
 		freeRun(l.Progs, a, 20)
 		if tagged.CanonGo(concShared) != before {
 			one("conc:free:shared-modified", "the shared Map changed during the free run")
@@ -391,13 +423,36 @@ func mutateAll(v interface{}) {
 	}
 }
 
+var pureExoticOnce sync.Once
+
+// a Map holding the Go value types the API accepts besides the JSON-shaped ones (what a caller builds by hand)
+func exoticMap() mxj.Map {
+	return mxj.Map{"doc": map[string]interface{}{
+		"-id": 7, "i64": int64(-2), "u64": uint64(3), "n": json.Number("1.50"), "f32like": 2.5,
+		"ss": []string{"a", "b<"}, "lm": []map[string]interface{}{{"k": 1}, {"k": "v", "-a": true}},
+		"m": mxj.Map{"x": []interface{}{1, "two", nil, map[string]interface{}{"#text": "t", "-q": "r"}}},
+		"#text": "mixed & text", "e": []interface{}{}, "nil": nil}}
+}
+
 func replayPure(line []byte, a *Acc) {
 	var l pureLine
 	if err := json.Unmarshal(line, &l); err != nil {
 		panic(err)
 	}
-	mv := l.M.ToMap()
+	pureExoticOnce.Do(func() { pureOn(exoticMap(), a, map[string]string{"f": "pure", "map": "exotic (built in the harness)"}, false) })
+	if l.M == nil {
+		return // (the replay case of a finding on the exotic Map: that Map has just been exercised)
+	}
+	pureOn(l.M.ToMap(), a, l, true)
+}
+
+// jsonShaped: the Map holds JSON value types only, so that Copy (a JSON round trip) is the identity on it
+func pureOn(mv mxj.Map, a *Acc, l interface{}, jsonShaped bool) {
 	before := tagged.CanonGo(mv)
+	var twin mxj.Map // an identical, untouched Map: the comparison that also sees a changed Go TYPE of a nested value
+	if !jsonShaped {
+		twin = exoticMap()
+	}
 	var paths []string
 	allPaths(map[string]interface{}(mv), "", &paths)
 	sort.Strings(paths)
@@ -484,6 +539,10 @@ func replayPure(line []byte, a *Acc) {
 			a.Mis("pure:"+name, fmt.Sprintf("%s modified its receiver: %s -> %s", name, short(before), short(got)), l)
 			return false
 		}
+		if twin != nil && !reflect.DeepEqual(map[string]interface{}(mv), map[string]interface{}(twin)) {
+			a.Mis("pure:types:"+name, fmt.Sprintf("%s left its receiver rendering the same but no longer deeply equal (a nested value changed its Go type): %#v", name, mv), l)
+			return false
+		}
 		return true
 	}
 	ok := true
@@ -541,7 +600,7 @@ func replayPure(line []byte, a *Acc) {
 	// Copy shares no mutable structure
 	cp, err := mv.Copy()
 	if err == nil {
-		if tagged.CanonGo(cp) != before {
+		if jsonShaped && tagged.CanonGo(cp) != before {
 			a.Mis("pure:copy-differs", fmt.Sprintf("Copy = %s, original %s", tagged.CanonGo(cp), before), l)
 			return
 		}
@@ -558,7 +617,7 @@ func replayPure(line []byte, a *Acc) {
 		}
 	}
 	a.Count(n, n)
-	if len(l.M.KV) > 1 {
+	if len(mv) > 1 {
 		a.Sample(map[string]interface{}{"map": before, "read_only_calls": n})
 	}
 }
